@@ -34,7 +34,8 @@ type FileGenOpts struct {
 	PhasedSlots int
 	// OutOfDomain: also produce strings longer than the field and arrays longer than the profile length.
 	OutOfDomain bool
-	// LongStrings: one string in six is longer than its field (field length .. 600 bytes) and one
+	// LongStrings (values that cannot travel in full): one time in four has a sub-second part;
+	// one string in six is longer than its field (field length .. 600 bytes) and one
 	// array in six longer than the profile length (.. 513 elements).
 	LongStrings bool
 	// MaxFieldsSet bounds the number of fields set per message (0: no bound). Messages whose
@@ -137,6 +138,10 @@ func SetField(rng *Rand, mv reflect.Value, pf *ref.PField, o *FileGenOpts) {
 				t = t.In(z)
 			}
 		}
+		if o != nil && o.LongStrings && rng.Chance(1, 4) {
+			// a value with a sub-second part (time.Now()): its whole seconds travel
+			t = t.Add(time.Duration([]int{1, 499999999, 500000000, 500000001, 999999999, 1 + rng.Intn(999999998)}[rng.Intn(6)]))
+		}
 		fv.Set(reflect.ValueOf(t))
 		return
 	case ref.KTimeLocal:
@@ -163,6 +168,12 @@ func SetField(rng *Rand, mv reflect.Value, pf *ref.PField, o *FileGenOpts) {
 			if w := u - ref.FitEpochUnix + int64(zo); w > 0 && w < 1<<32-2 {
 				t = zt
 			}
+		}
+		if o != nil && o.LongStrings && rng.Chance(1, 4) && t.Unix() >= ref.FitEpochUnix {
+			// (not for instants before the FIT epoch, i.e. local times of the first day east of
+			// Greenwich: which whole second a sub-second value "has" there is not defined by the
+			// statement, and the library counts toward the epoch)
+			t = t.Add(time.Duration([]int{1, 499999999, 500000000, 500000001, 999999999, 1 + rng.Intn(999999998)}[rng.Intn(6)]))
 		}
 		fv.Set(reflect.ValueOf(t))
 		return
@@ -444,9 +455,9 @@ func Relax(g uint16, vals []ref.Val) []ref.Val {
 			}
 		case 't':
 			if pf.Kind == ref.KTimeLocal {
-				out[pf.Sindex] = ref.Val{K: 't', N: uint64(int64(v.N) + int64(v.Off)), Ns: v.Ns}
+				out[pf.Sindex] = ref.Val{K: 't', N: uint64(int64(v.N) + int64(v.Off))} // whole seconds travel, the sub-second part cannot
 			} else {
-				out[pf.Sindex] = ref.Val{K: 't', N: v.N, Ns: v.Ns}
+				out[pf.Sindex] = ref.Val{K: 't', N: v.N}
 			}
 		}
 	}
